@@ -152,6 +152,10 @@ class Peer(memnet.ScriptPeer):
                     if k < w.cfg.get("early_frames", 0):
                         self.send_frame(OP_TEXT, b"early-%d" % k)
                         w.loop.call_soon(w.loop.call_soon, send_early, k + 1)  # two iterations apart: separate reads on the other side
+                    elif w.cfg.get("early_eof") and self.transport is not None:
+                        # ... says goodbye and hangs up, all before the client has installed its reader
+                        self.send_frame(OP_CLOSE, (1000).to_bytes(2, "big"))
+                        self.transport.close()
 
                 w.loop.call_soon(send_early, 0)
                 if w.cfg.get("unasked_extension"):
@@ -295,6 +299,18 @@ class World:
                 loop.drive(go(), max_time=50)
             except _Skip:
                 self.skip = True
+            except Violation:
+                raise
+            except Exception as e:  # noqa: BLE001
+                import aiohttp as _a
+
+                if cfg.get("early_eof") and isinstance(e, _a.ClientError):
+                    self.skip = True  # the peer hung up during the set-up: a client error is an answer
+                elif cfg.get("early_eof"):
+                    raise Violation(hyp.exc_key(e, "ws-connect-raised"), f"the peer upgraded, sent {cfg.get('early_frames', 0)} messages and a Close frame and hung up while "
+                                    f"ws_connect() was still setting up: ws_connect() raised {type(e).__name__}: {e} (not a client error)")
+                else:
+                    raise
         else:
             from aiohttp import web
 
@@ -742,6 +758,7 @@ CONFIGS = [
     base_cfg("client", recv_timeout=3.0, legacy_receive_timeout=True),
     base_cfg("client", early_frames=3),
     base_cfg("client", early_frames=3, early_huge=True),
+    base_cfg("client", early_frames=2, early_eof=True),
     base_cfg("server", early_big=5, prepare_delay=40, read_bufsize=200_000),
     base_cfg("server", early_big=3, prepare_delay=10),
     base_cfg("client", unasked_extension=True),
